@@ -134,6 +134,11 @@ def vdbStep (st : VdbSt) : List String → Option (VdbSt × String)
   | ["vdb-scan", name, p] => do
     let p ← ofHex p
     pure (st, showEntries (scanV st.views name p))
+  | ["vdb-scanu", name, p] => do
+    -- the scan of everything in the coordinates of a manager's root, the store's bookkeeping entries left out
+    -- (the empty key is an ordinary entry)
+    let p ← ofHex p
+    pure (st, showEntries ((scanV st.views name p).filter (fun e => e.1.isEmpty || isUserKey e.1)))
   | ["vdb-put", name, k, v] => do
     let k ← ofHex k
     let v ← ofHex v
